@@ -353,7 +353,9 @@ func genRawInputs(o hx.Opts, r *hx.Rand) []RawInput {
 				in.Reply = []hx.B{dnsAnswer(r, d)}
 			} else {
 				d = r.Bytes(r.PickInt([]int{1, 12, 100, 512, 1400}))
-				if in.Svc == "copy" {
+				// copy always gets an answer; dns-proxy waits for one (without any deadline) whenever
+				// the datagram unpacks as a DNS message, so the backend answers those too
+				if in.Svc == "copy" || new(dns.Msg).Unpack(d) == nil {
 					in.Reply = []hx.B{r.Bytes(r.PickInt([]int{1, 50, 1000}))}
 				}
 			}
@@ -411,12 +413,16 @@ func runRawPart(o hx.Opts, r *hx.Rand, e *env, replay *Input) {
 	}
 	dist := map[string]int{}
 	var cases []hx.Case
+	decoy0 := e.decoy.count()
 	for i, in := range ins {
 		ob, crash := e.runRaw(in)
 		dist[in.Svc+"/"+in.Transport+"/"+in.Via]++
 		dist["payload:"+sizeClass(len(concatB(in.Segs)))]++
 		inp := in
 		cases = append(cases, hx.Case{ID: i, Kind: "raw-" + in.Via, Input: Input{Part: "raw", Raw: &inp}, Obs: ob, Crash: crash, Coq: coqRawCase(i, in, ob)})
+	}
+	if n := e.decoy.count() - decoy0; n > 0 && len(cases) > 0 && cases[len(cases)-1].Crash == "" {
+		cases[len(cases)-1].Crash = fmt.Sprintf("the decoy listener was contacted %d time(s) during the raw part", n)
 	}
 	hx.Write(o, "C15", "raw", coqHeader+"Import RawCheck.\n", "case", cases, dist, nil, 30)
 }
